@@ -138,6 +138,14 @@ def _gen(case, seed):
     else:
         X = rs.randint(-50, 51, size=(rows, N)).astype(float)
     X = X.astype(_v(case, 'dtype', 'f8'))       # integer-valued, so every dtype holds the same numbers
+    if st == 'auto_th' and _v(case, 'rail') and X.dtype.kind == 'i':
+        # raw converter counts sitting on the rails after the baseline: the most negative value of the dtype has no
+        # positive counterpart in that dtype, the whole-signal computation (x >= th) | (x <= -th) still flags it
+        B, info = _ath_B(case), np.iinfo(X.dtype)
+        for k, val in enumerate((info.min, info.max, info.min)):
+            pos = B + 1 + 2 * k
+            if pos < N:
+                X[..., pos] = val
     return X if case['two'] else X[0]
 
 
@@ -1484,6 +1492,7 @@ def _variant_cases(stage, rng, reps):
             p['cur'] = rng.choice([None, None, 3.5, 0.25, -2.5])
             v['cb'] = rng.choice(['list', 'none', 'positional'])
             v['wired'] = p['cur'] is None and v['cb'] != 'none' and rng.random() < 0.5
+            v['rail'] = v['dtype'] in ('i2', 'i4', 'i8') and rng.random() < 0.6
         if stage in ('blocked', 'discard') and rng.random() < 0.5:
             v['reset'] = _rand_sizes(rng, rng.randint(1, 12), 4)
         c = _case(stage, p, two, ann, sizes, rng)
